@@ -5,7 +5,7 @@ import pyspec
 from . import C01, common
 
 ID = "C17"
-LEVEL = "other"
+LEVEL = "proof"
 RULE = ("GobEncode of every Decimal shape (all classes, modes, accuracies, 1..40-word mantissas, low zero words, extreme "
         "exponents, precisions up to MaxPrec) decoded into zero-value and pre-used receivers (precision 0 and >0, every "
         "mode); corrupted streams: every single byte of a valid encoding flipped/zeroed/set to 0xff, truncation at every "
